@@ -84,7 +84,7 @@ pub fn gen(tier: &str, r: &mut Rng) -> Vec<String> {
     }
     let ns = budget(tier, 100, 3000);
     for i in 0..ns {
-        let o = GenOpts { max_models: 2, max_chains: 3, max_res: 3, max_conf: 2, max_atoms: [4, 7, 9, 13, 30][i % 5], aniso: false, coord_step: U, ..GenOpts::default() };
+        let o = GenOpts { max_models: 2, max_chains: 3, max_res: 3, max_conf: 2, max_atoms: [4, 7, 9, 13, 30][i % 5], aniso: i % 2 == 0, coord_step: U, ..GenOpts::default() };
         let mut s = gen_pdb(r, &o);
         for m in s.models.iter_mut() { for c in m.chains.iter_mut() { for x in c.residues.iter_mut() { for f in x.confs.iter_mut() { for a in f.atoms.iter_mut() {
             a.x = r.range(-512, 512) * U; a.y = r.range(-512, 512) * U; a.z = r.range(-512, 512) * U;
@@ -256,6 +256,12 @@ pub fn exec(case: &str) -> Exec {
                 Ok(Some(after)) => {
                     ex.resp = after.line();
                     ex.tags.push(format!("level:{level}"));
+                    // "touches nothing else": with the positions put aside, the structure is what it was (identifiers,
+                    // occupancies, B-factors, charges, anisotropic tensors, order)
+                    let mask = |q: &SPdb| { let mut q = q.clone(); for m in q.models.iter_mut() { for c in m.chains.iter_mut() { for x in c.residues.iter_mut() { for f in x.confs.iter_mut() { for a in f.atoms.iter_mut() { a.x = 0; a.y = 0; a.z = 0; } } } } } q };
+                    if mask(&after) != mask(&SPdb::from_real(&s.to_real().unwrap())) {
+                        ex.failures.push(Failure::new("apply-transformation-changes-more-than-positions", "").feat("level", &level).feat("has_tensor", s.models.iter().any(|m| m.chains.iter().any(|c| c.residues.iter().any(|x| x.confs.iter().any(|f| f.atoms.iter().any(|a| a.atf.is_some())))))));
+                    }
                     for pl in pools() {
                         if let Ok(Some(q)) = guarded(|| run(Some(pl))) {
                             if q != after { ex.failures.push(Failure::new("parallel-apply-differs", "").feat("level", &level)); break; }
